@@ -29,7 +29,7 @@ ASSUMPTIONS = [
     "virtual time in exact dyadic units; timers with different deadlines fire in deadline order",
     "the wrapped function handles cancellation as characterised by its kind",
 ]
-BOUNDS = {"quick": {"timeout": 2, "durations": [1, 2, 3]}, "thorough": {"timeout": 2, "durations": [0.5, 1, 2, 3, 4]}}
+BOUNDS = {"quick": {"timeout": 2, "other_timeouts": [0, 0.5, 8], "durations": [1, 2, 3]}, "thorough": {"timeout": 2, "durations": [0.5, 1, 2, 3, 4]}}
 EXHAUSTIVE = {"quick": True, "thorough": True}
 SAMPLE_EVERY = {"quick": 40, "thorough": 200}
 
@@ -78,6 +78,13 @@ def programs(tier: str):
     for d in (1,):
         for kind in ("value", "exc"):
             yield {"d": d, "kind": kind, "tc": None, "batch": 1, "cancel_at_return": True}
+    # deadlines other than 2: zero (int and float - the deadline has passed as soon as the function
+    # suspends), a fraction, a long one
+    for tv, as_int in ((0.0, False), (0.0, True), (0.5, False), (8.0, False)):
+        for d in (1, 3):
+            for kind in ("value", "exc", "ignore1"):
+                for tc in (None, 1):
+                    yield {"d": d, "kind": kind, "tc": tc, "batch": 1, "T": tv, "T_int": as_int}
     # ONE wrapper used under two event loops one after the other (a module-level decorated
     # function and two asyncio.run calls), every outcome in each
     for d1 in (1, 3):
@@ -213,6 +220,7 @@ def execute(program, ch: Chooser) -> Result:  # noqa: C901, PLR0912, PLR0915
     if "loops" in program or "stacked" in program:
         return _sequential(program, ch)
     d, kind, tc, batch = program["d"], program["kind"], program["tc"], program["batch"]
+    T = program.get("T", 2.0)  # noqa: N806 - the deadline of this program (module default 2)
     w = World(ch, batch=batch)
     log: list = []
     viols: list[dict] = []
@@ -261,7 +269,7 @@ def execute(program, ch: Chooser) -> Result:  # noqa: C901, PLR0912, PLR0915
             from haiway.helpers.throttling import throttle
 
             fn = throttle(limit=5, period=1.0)(fn)
-        fn = timeout(T)(fn)
+        fn = timeout(int(T) if program.get("T_int") else T)(fn)
         res: dict = {}
 
         async def caller():
